@@ -1,0 +1,62 @@
+//go:build verif
+
+// Contracts for package parser, read by the verification machinery in /verif.
+// This file contains no executable code; it is compiled only with -tags verif.
+package parser
+
+/*@
+// tokens are never rewritten after scanning / alias declaration
+immutable token.Token ddptypes.ParameterType
+
+// the only precondition the parser guarantees for alias tokens
+spec wfTok(t *token.Token) bool := t != nil && (t.Type == token.ALIAS_PARAMETER ==> t.AliasInfo != nil)
+
+spec litTok(ty token.TokenType) bool :=
+  ty == token.IDENTIFIER || ty == token.SYMBOL || ty == token.INT || ty == token.FLOAT || ty == token.CHAR || ty == token.STRING
+
+// specification of the two key predicates of the alias trie
+spec tokEq(a, b *token.Token) bool :=
+  a == b || (a.Type == b.Type &&
+    (a.Type == token.ALIAS_PARAMETER
+       ? (a.AliasInfo.IsReference == b.AliasInfo.IsReference && ddptypes.norm(a.AliasInfo.Type) == ddptypes.norm(b.AliasInfo.Type))
+       : (litTok(a.Type) ? a.Literal == b.Literal : true)))
+
+spec b2i(b bool) int := b ? 1 : 0
+
+spec tokLess(a, b *token.Token) bool :=
+  a.Type != b.Type ? a.Type < b.Type :
+    (a.Type == token.ALIAS_PARAMETER
+       ? (a.AliasInfo.IsReference != b.AliasInfo.IsReference
+            ? b2i(a.AliasInfo.IsReference) < b2i(b.AliasInfo.IsReference)
+            : (ddptypes.IsList(a.AliasInfo.Type) != ddptypes.IsList(b.AliasInfo.Type)
+                 ? b2i(ddptypes.IsList(a.AliasInfo.Type)) < b2i(ddptypes.IsList(b.AliasInfo.Type))
+                 : ddptypes.typeString(ddptypes.norm(a.AliasInfo.Type)) < ddptypes.typeString(ddptypes.norm(b.AliasInfo.Type))))
+       : (litTok(a.Type) ? a.Literal < b.Literal : false))
+
+func tokenEqual [C20]
+  pure
+  safe
+  requires wfTok(t1) && wfTok(t2)
+  ensures result == tokEq(t1, t2)
+
+func tokenLess [C20]
+  pure
+  safe
+  requires wfTok(t1) && wfTok(t2)
+  ensures result == tokLess(t1, t2)
+
+// ordered(tokenEqual, tokenLess): what the sorted-slice map needs from its key predicates
+lemma L_ord_irreflexive [C20]: forall a *token.Token :: wfTok(a) ==> !tokLess(a, a)
+lemma L_ord_transitive [C20]: forall a, b, c *token.Token :: wfTok(a) && wfTok(b) && wfTok(c) && tokLess(a, b) && tokLess(b, c) ==> tokLess(a, c)
+lemma L_ord_eq_implies_incomparable [C20]: forall a, b *token.Token :: wfTok(a) && wfTok(b) && tokEq(a, b) ==> !tokLess(a, b) && !tokLess(b, a)
+lemma L_ord_trichotomy [C20]: forall a, b *token.Token :: wfTok(a) && wfTok(b) ==> (tokEq(a, b) <==> (!tokLess(a, b) && !tokLess(b, a)))
+// known finding F-20: trichotomy fails exactly when two alias parameters have distinct types that print alike;
+// outside that class it holds (this relativised lemma is in the ledger and must stay proved)
+spec printsInjectively(a, b *token.Token) bool :=
+  (a.Type == token.ALIAS_PARAMETER && b.Type == token.ALIAS_PARAMETER &&
+   ddptypes.typeString(ddptypes.norm(a.AliasInfo.Type)) == ddptypes.typeString(ddptypes.norm(b.AliasInfo.Type)))
+  ==> ddptypes.norm(a.AliasInfo.Type) == ddptypes.norm(b.AliasInfo.Type)
+lemma L_ord_trichotomy_rel [C20]: forall a, b *token.Token :: wfTok(a) && wfTok(b) && printsInjectively(a, b) ==> (tokEq(a, b) <==> (!tokLess(a, b) && !tokLess(b, a)))
+lemma L_ord_congruence_l [C20]: forall a, b, c *token.Token :: wfTok(a) && wfTok(b) && wfTok(c) && tokEq(a, b) && tokLess(b, c) ==> tokLess(a, c)
+lemma L_ord_congruence_r [C20]: forall a, b, c *token.Token :: wfTok(a) && wfTok(b) && wfTok(c) && tokLess(a, b) && tokEq(b, c) ==> tokLess(a, c)
+@*/
